@@ -112,12 +112,16 @@ fn other_kinds<F: Function + MathFunction>(c: &Case, want: f32, backend: &str, b
     };
     // the value the expression takes at a position when abs keeps the sign of a negative zero, as Grad::abs and
     // Interval::abs do (`if v < 0 { -v } else { v }`): atan2 / division / hashes downstream then see -0.0
-    let alt_at = |pos: [f32; 3]| -> f32 {
-        let mut orc = Oracle::default(); orc.abs_keeps_neg_zero = true;
+    let alt2 = |pos: [f32; 3], keep: bool| -> (f32, bool) {
+        let mut orc = Oracle::default(); orc.abs_keeps_neg_zero = keep;
         let env = |v: Var| -> f32 { match v { Var::X => pos[0], Var::Y => pos[1], Var::Z => pos[2],
             _ => { let k = c.dag.vs.iter().position(|x| *x == v).unwrap(); c.supplied.iter().find(|(kk, _)| *kk == k).map(|(_, v)| *v).unwrap_or(f32::NAN) } } };
-        eval_arena(&c.dag.ctx, &env, &mut orc)[c.root.verif_index()]
+        let v = eval_arena(&c.dag.ctx, &env, &mut orc)[c.root.verif_index()];
+        (v, orc.atan00)
     };
+    let alt_at = |pos: [f32; 3]| -> f32 { alt2(pos, true).0 };
+    // atan2 with both arguments zero is left out of the enclosure property (C03) and so of this comparison
+    let atan00_at = |pos: [f32; 3]| -> bool { alt2(pos, false).1 || alt2(pos, true).1 };
     // gradient: the value lane
     {
         let tape = shape.grad_slice_tape(Default::default());
@@ -141,7 +145,7 @@ fn other_kinds<F: Function + MathFunction>(c: &Case, want: f32, backend: &str, b
         let expect = if degenerate { point_at(ipos[0].lower(), ipos[1].lower(), ipos[2].lower()) } else { None };
         match (r, expect) { (Ok(i), Some(w2)) if !w2.is_nan() => { let slack = 1e-3 * (1.0 + w2.abs());
                              let inside = if w2.is_infinite() { i.lower() <= w2 && w2 <= i.upper() } else { i.lower() - slack <= w2 && w2 <= i.upper() + slack };
-                             if !(i.has_nan() || inside) { let a = alt_at([ipos[0].lower(), ipos[1].lower(), ipos[2].lower()]);
+                             if !(i.has_nan() || inside || atan00_at([ipos[0].lower(), ipos[1].lower(), ipos[2].lower()])) { let a = alt_at([ipos[0].lower(), ipos[1].lower(), ipos[2].lower()]);
                                  let kind = if i.lower() - slack <= a && a <= i.upper() + slack { "abs-keeps-negative-zero" } else { "interval-excludes-point" };
                                  bad.push(format!("kind={kind} backend={backend} [{}, {}] point evaluator at the same position {}", i.lower(), i.upper(), w2)); } }
                   (Err(e), _) => bad.push(format!("kind=interval-error backend={backend} {e}")), _ => {} }
